@@ -323,6 +323,18 @@ def _reduction(opname, dtype=None, index=False):
         ddof = b.get("ddof")
         if ddof is not None and not (ddof.has_const and ddof.const == 0):
             parts.append(("ddof", ddof.term))
+        if opname in ("mean", "average") and not (w is not None and w.kind != "none") and sh is not None:
+            # the extent averaged over, so that mean = sum / n in the normal form
+            axn = axis_of(b.get("axis"), rank)
+            ext = None
+            if at is None and (b.get("axis") is None or b.get("axis").kind == "none" or rank == 1):
+                ext = Dim(1)
+                for d in sh:
+                    ext = ext.mul(d)
+            elif isinstance(axn, int) and axn < len(sh):
+                ext = sh[axn]
+            if ext is not None and ext.known():
+                parts.append(("n", A.dim_term(ext)))
         term = T(opname, *parts)
         dt = dtype
         if opname in ("sum",) and x.extra == "bool":
@@ -731,6 +743,11 @@ def np_diag(interp, name, args, kw, st, node):
             pass
         return V("arr", T("diagof", x.term), shape=(interp.order.dmin(sh[0], sh[1]),), orig=frozenset([FRESH]) if base == "diag" else x.orig, labels=x.labels, loc=fresh_id() if base == "diag" else x.loc)
     return fresh_arr(T("diagof", x.term), tuple(sh[2:]) + (sh[0],), x.labels)
+
+
+@reg("numpy.diag_indices_from", "numpy.diag_indices")
+def np_diag_indices(interp, name, args, kw, st, node):
+    return V("diagidx", T("diagidx"), labels=frozenset())
 
 
 @reg("numpy.fill_diagonal")
@@ -1365,7 +1382,7 @@ def _list_method(lst, name):
                 new = interp.mk_list(lst.items + [args[0]])
                 new.loc = lst.loc
             else:
-                new = lst.replace(term=T("append", lst.term, args[0].term), labels=lst.labels | args[0].labels)
+                new = lst.replace(term=T("append", lst.term, args[0].term), labels=lst.labels | args[0].labels, extra=("last", args[0]))
             new.orig = lst.orig
             interp.event("mutate", node, st, how=".append", target=lst, value=args[0], targetsrc="recv")
             interp.rebind(lst, new, st)
@@ -1423,6 +1440,8 @@ def _dict_method(d, name):
         if name == "items":
             if d.items is not None:
                 return interp.mk_list([interp.mk_tuple([vconst(k), v]) for k, v in d.items.items()])
+        if name in ("keys", "values", "items"):
+            return V("list", T("dict" + name, d.term), labels=d.labels, orig=d.orig)
         if name == "copy":
             return d.replace(loc=fresh_id())
         if name == "update":
